@@ -825,6 +825,10 @@ def member_histories(ctx, reqs, pend):
                     continue
                 out_j = load_outcome(lambda: fromdict(Cls, jd))
                 check_rt(ctx, 'member-history:jsonified', case, out_j, x, src, key, pre)
+                st = model.StdTables()
+                st.add_json(jd)
+                reqs.append({'op': 'loadv1', 'ty': model.enc_ty(ty), 'doc': model.enc_j(jd), 'std': st.build()})
+                pend.append((case, out_j, built))
                 if hasattr(Cls, 'from_json'):
                     check_rt(ctx, 'member-history:json', case, load_outcome(lambda: Cls.from_json(x.to_json())), x, src, key, pre)
         finally:
